@@ -165,6 +165,12 @@ func c08Run(c *Ctx, capSec int) {
 		keys = append(keys, c08Key{First: "ok-n2-ttl16-fliptc", Kind: "flip-tc", Probes: []float64{1.0, 12.4, 12.9, 13.2, 13.5}, Flip: "tc"})
 		keys = append(keys, c08Key{First: "ok-n2-ttl16-fliprc9", Kind: "flip-rcode9", Probes: []float64{1.0, 12.4, 12.9, 13.2, 13.5}, Flip: "rc9"})
 	}
+	if !thorough && capSec == 0 {
+		// the 30 s limit of NXDOMAIN / record-less answers whose records would allow more: one probe
+		// inside, one after 30 s + the 2 s allowance (this sets the wall time of the quick tier)
+		add("nx-ttl600", "nx-ttl600", 0.5, 25.2, 33.6)
+		add("empty-x", "empty-30s", 0.5, 25.2, 33.6)
+	}
 	if thorough {
 		add("nx-ttl600", "nx-ttl600", 0.5, 10.3, 25.2, 33.6, 35)
 		add("empty-x", "empty-30s", 0.5, 10.3, 25.2, 33.6, 35)
